@@ -225,25 +225,35 @@ def guarded_default_map(trace, max_calls):
         pm.python_map = orig
 
 
+_GUARD = {'armed': False, 'seconds': 0, 'installed': False}
+
+
+def _on_vtalrm(sig, frame):
+    if _GUARD['armed']:
+        raise Horizon('no return within %d CPU seconds' % _GUARD['seconds'])
+
+
 @contextlib.contextmanager
 def wall_guard(seconds):
     """last resort against a spin the other guards do not see (reported as clause 'runaway'); measured in
-    CPU seconds of this process so that a loaded machine cannot trip it"""
+    CPU seconds of this process so that a loaded machine cannot trip it.  The handler is installed once per
+    process and stays (disarmed) afterwards, so a late signal can never meet the default action"""
     import signal
-
-    def onalarm(sig, frame):
-        raise Horizon('no return within %d CPU seconds' % seconds)
-    try:
-        old = signal.signal(signal.SIGVTALRM, onalarm)
-    except ValueError:      # not the main thread
-        yield
-        return
+    if not _GUARD['installed']:
+        try:
+            signal.signal(signal.SIGVTALRM, _on_vtalrm)
+            _GUARD['installed'] = True
+        except ValueError:      # not the main thread
+            yield
+            return
+    _GUARD['seconds'] = seconds
+    _GUARD['armed'] = True
     signal.setitimer(signal.ITIMER_VIRTUAL, seconds, 1.0)
     try:
         yield
     finally:
+        _GUARD['armed'] = False
         signal.setitimer(signal.ITIMER_VIRTUAL, 0)
-        signal.signal(signal.SIGVTALRM, old)
 
 
 # ------------------------------------------------------------------ randomness
